@@ -813,6 +813,12 @@ impl<'s> Runner<'s> {
                 if plen < prog.min_pkt {
                     return None;
                 }
+                if engine == Engine::Interp && plen < idx + 8 {
+                    // the interpreter bounds-checks every ldabs/ldind as an 8-byte access, whatever its
+                    // width: it refuses loads that end in the packet's last 7 bytes. What it may refuse is
+                    // C01/C02's business; the compiled engines are judged up to the last byte.
+                    return None;
+                }
                 if prog.p1 < 0 && engine == Engine::Interp {
                     // a negative index register: the interpreter's plain `+` wraps in release builds and
                     // panics where overflow checks are compiled in (as here). Whether it may panic is
@@ -901,6 +907,22 @@ impl<'s> Runner<'s> {
                     self.counters.inc_dyn(format!("c09_checked/{}/{}/{}", kind.name(), engine.name(), prog.class.name()));
                     if v != expected {
                         return self.c09(format!("stack-top/{}", engine.name()), at, format!("{}: bytes stored at r10-512 and r10-1 read back as {:#x}, expected {:#x}{}", who, v >> 8, expected >> 8, if prog.local_call { " (a local call was made in between)" } else { "" }));
+                    }
+                }
+            }
+            Class::StackFill => {
+                if plen < prog.min_pkt {
+                    return None;
+                }
+                let expected = prog.p0 as u64;
+                if let Outcome::Ok(v) = obs.outcome {
+                    if v & 0xff != prog.tag as u64 {
+                        return None;
+                    }
+                    self.counters.inc("c09_stack_checks");
+                    self.counters.inc_dyn(format!("c09_checked/{}/{}/{}", kind.name(), engine.name(), prog.class.name()));
+                    if v != expected {
+                        return self.c09(format!("stack-not-private/{}", engine.name()), at, format!("{}: all 64 slots of the stack were written, then came arithmetic, byte swaps, packet loads and a helper call; the slots fold to {:#x}, expected {:#x}: something else wrote inside [r10-512, r10)", who, v >> 8, expected >> 8));
                     }
                 }
             }
